@@ -218,6 +218,73 @@ extern "C" fn handler(sig: libc::c_int, info: *mut libc::siginfo_t, _uc: *mut li
     }
 }
 
+static PROGRESS: std::sync::atomic::AtomicU64 = std::sync::atomic::AtomicU64::new(0);
+static WATCH_LABEL: std::sync::Mutex<String> = std::sync::Mutex::new(String::new());
+
+/// Heartbeat for `watchdog`: call once per case.
+#[inline]
+pub fn beat() {
+    PROGRESS.fetch_add(1, std::sync::atomic::Ordering::Relaxed);
+}
+
+/// Names what is running now (shown when the watchdog fires).
+pub fn beat_label(s: &str) {
+    if let Ok(mut g) = WATCH_LABEL.try_lock() {
+        if *g != s {
+            *g = s.to_string();
+        }
+    }
+}
+
+/// A call of the code under test that never returns is a finding, not a hung check: when the
+/// heartbeat does not move for `secs` seconds the process reports a violation and exits 1.
+/// Returns a flag the caller sets when the monitored phase is over.
+pub fn watchdog(secs: u64) -> std::sync::Arc<std::sync::atomic::AtomicBool> {
+    use std::sync::atomic::Ordering;
+    let done = std::sync::Arc::new(std::sync::atomic::AtomicBool::new(false));
+    let d2 = done.clone();
+    std::thread::spawn(move || {
+        let mut last = PROGRESS.load(Ordering::Relaxed);
+        let mut stalled = 0u64;
+        while !d2.load(Ordering::Relaxed) {
+            std::thread::sleep(std::time::Duration::from_secs(1));
+            let now = PROGRESS.load(Ordering::Relaxed);
+            if now == last {
+                stalled += 1;
+            } else {
+                stalled = 0;
+                last = now;
+            }
+            if stalled >= secs && !d2.load(Ordering::Relaxed) {
+                if let Some(g) = GLOBAL.get() {
+                    let label = WATCH_LABEL.lock().map(|l| l.clone()).unwrap_or_default();
+                    let key = format!("{}/call-did-not-return", g.prop);
+                    let dir = g.out_dir.join("replays");
+                    let _ = std::fs::create_dir_all(&dir);
+                    let path = dir.join(format!("{}-{:016x}.json", g.prop, fnv(key.as_bytes())));
+                    let detail = format!("no case completed for {} s while running: {} (a call into the code under test does not return)", secs, label);
+                    let body = json!({"property": g.prop, "key": key, "detail": detail, "tier": g.tier, "build": g.build, "case": {"running": label}});
+                    let _ = std::fs::write(&path, serde_json::to_string_pretty(&body).unwrap_or_default());
+                    let ev = json!({
+                        "property_id": g.prop, "tier": g.tier, "seed": 0, "level": g.level,
+                        "coverage": {"evaluations": 1, "distinct_nontrivial": 1, "states": 1, "transitions": 1, "traces_validated_against_impl": 1,
+                                     "rule": "run stopped by the watchdog: a call into the code under test did not return", "samples": [body], "exhaustive": false,
+                                     "violation_keys": [key]},
+                        "wall_s": 0.0, "violations": 1, "_part": g.build,
+                    });
+                    if let Ok(p) = std::env::var("VERIF_EVIDENCE_PATH") {
+                        let _ = std::fs::write(p, serde_json::to_string_pretty(&ev).unwrap_or_default());
+                    }
+                    println!("  key={} detail={}", key, detail);
+                    println!("VIOLATION property={} replay={}", g.prop, path.display());
+                }
+                std::process::exit(1);
+            }
+        }
+    });
+    done
+}
+
 /// Runs one case. `describe` returns (key prefix, human detail, replay JSON) and is only called
 /// when the case panics or faults.
 pub fn guarded<R>(ctx: &Ctx, describe: Describe<'_>, f: impl FnOnce() -> R) -> Option<R> {
